@@ -210,6 +210,25 @@ def shadow_programs():
     return out
 
 
+def alias_mode_programs():
+    """the mode of a channel reaches the declaration of independence through type NAMES: alias chains (and two aliases of one definition, in
+    both declaration orders) to a unit type of every mode, used as the parameter of a function providing at every mode (C06), and as the type
+    of a dropped / split parameter (C05)"""
+    out = []
+    modes = ["lin", "aff", "mul", "rep"]
+    shapes = [("chain1", ["type A = L"], "A"), ("chain2", ["type A = L", "type B = A"], "B"), ("chain3", ["type A = L", "type B = A", "type C = B"], "C"),
+              ("two", ["type A = L", "type B = L"], "B"), ("two-rev", ["type B = L", "type A = L"], "A"), ("late", ["type B = A", "type A = L"], "B"),
+              ("mixed", ["type A = L", "type P = L * 1", "type B = A"], "B")]
+    for m in modes:
+        for sname, defs, last in shapes:
+            for pm in modes:
+                head = "type L = %s 1\n" % m + "\n".join(defs) + "\n"
+                out.append(("alias/%s-%s-%s-wait" % (sname, m, pm), head + "let f(x : %s) : %s 1 = wait x; close self\n" % (last, pm)))
+            out.append(("alias/%s-%s-drop" % (sname, m), "type L = %s 1\n" % m + "\n".join(defs) + "\nlet f(x : %s) : lin 1 = drop x; close self\n" % last))
+            out.append(("alias/%s-%s-split" % (sname, m), "type L = %s 1\n" % m + "\n".join(defs) + "\nlet f(x : %s) : lin 1 = <a, b> <- split x; wait a; wait b; close self\n" % last))
+    return out
+
+
 def corpus_texts(tier, seed):
     import rt
     texts = [(p["name"], p["text"]) for p in rt.fixed_corpus()]
@@ -245,6 +264,7 @@ def stage(tier=None, seed=None):
                 pass
             texts += annotation_programs(rng, 240 if tier == "quick" else 3000)
             texts += shadow_programs()
+            texts += alias_mode_programs()
             muts = token_mutants(texts, rng, 700 if tier == "quick" else 10000)
             cases = cases_for(texts + muts)
             fails, errs, states = validate(cases, work)
